@@ -626,4 +626,62 @@ pub struct ServerPool {'''),
         self.set_shard(Some(shard));''', new='''        let _ = sharder;
         let shard = sharding_key as usize % self.pool_settings.shards;
         self.set_shard(Some(shard));'''),
+    # ------------------------------------------------------------------ C17
+    dict(id="c17-shutdown-checked-in-transaction", prop="C17", file="src/client.rs", expect="C17-R1",
+         what="the transaction loop also reacts to the shutdown broadcast",
+         old='''                trace!("Client message: {}", code);
+
+                match code {''', new='''                trace!("Client message: {}", code);
+                if self.shutdown.try_recv().is_ok() && !self.admin {
+                    return Ok(());
+                }
+
+                match code {'''),
+    dict(id="c17-missing-decrement", prop="C17", file="src/client.rs", expect="C17-R3",
+         what="the TLS path forgets the -1",
+         old='''                        let result = client.handle().await;
+
+                        if !client.is_admin() {
+                            let _ = drain.send(-1).await;
+                        }
+
+                        if result.is_err() {
+                            client.stats.disconnect();
+                        }
+
+                        result
+                    }
+                    Err(err) => Err(err),
+                }
+            }
+            // TLS is not configured, we cannot offer it.''', new='''                        let result = client.handle().await;
+
+                        if result.is_err() {
+                            client.stats.disconnect();
+                        }
+
+                        result
+                    }
+                    Err(err) => Err(err),
+                }
+            }
+            // TLS is not configured, we cannot offer it.'''),
+    dict(id="c17-sigint-breaks", prop="C17", file="src/main.rs", expect="C17-R4",
+         what="SIGINT leaves the accept loop at once",
+         old='''                    // Broadcast that client tasks need to finish
+                    let _ = shutdown_tx.send(());''', new='''                    // Broadcast that client tasks need to finish
+                    let _ = shutdown_tx.send(());
+                    if total_clients >= 0 { break; }'''),
+    dict(id="c17-admins-kicked", prop="C17", file="src/client.rs", expect="C17-R1",
+         what="admin clients are disconnected by shutdown too",
+         old='''                _ = self.shutdown.recv() => {
+                    if !self.admin {''', new='''                _ = self.shutdown.recv() => {
+                    if !self.admin || self.transaction_mode {'''),
+    dict(id="c17-admin-only-not-forwarded", prop="C17", file="src/main.rs", expect="C17-R2",
+         what="new clients are not told that shutdown started",
+         old='''                            drain_tx,
+                            admin_only,
+                            tls_certificate,''', new='''                            drain_tx,
+                            false,
+                            tls_certificate,'''),
 ]
